@@ -131,20 +131,21 @@ class XsdAssert(XsdComponent, ElementPathMixin[Union['XsdAssert', SchemaElementT
         if value is not None:
             value = self.base_type.text_decode(value, context=context)
 
-        xpath_context = XPathContext(
-            root=context.source.get_xpath_node(obj),
-            namespaces=context.namespaces,
-            uri=context.source.url,
-            fragment=True,
-            variables={'value': value},
-            schema=self.parser.schema,
-        )
-
         try:
-            if not self.token.evaluate(xpath_context):
-                context.validation_error(validation, self, "assertion test is false", obj)
-        except ElementPathError as err:
+            xpath_context = XPathContext(
+                root=context.source.get_xpath_node(obj),
+                namespaces=context.namespaces,
+                uri=context.source.url,
+                fragment=True,
+                variables={'value': value},
+                schema=self.parser.schema,
+            )
+            result = self.token.evaluate(xpath_context)
+        except (ElementPathError, ValueError, ArithmeticError) as err:
             context.validation_error(validation, self, err, obj)
+        else:
+            if not result:
+                context.validation_error(validation, self, "assertion test is false", obj)
 
     # For implementing ElementPathMixin
     def __iter__(self) -> Iterator[Union['XsdElement', 'XsdAnyElement']]:
